@@ -29,3 +29,5 @@ def run(rep, tier):
     from .. import optable
     optable.tag_agreement(rep)
     optable.longest_ties(rep)
+    from .. import controls
+    controls.e1_controls(rep)
